@@ -30,6 +30,9 @@ type Obligation struct {
 	Output string
 	// expected to fail (canary)
 	Canary bool
+	File   string
+	Size   int
+	Known  bool
 }
 
 type Exec struct {
@@ -831,11 +834,11 @@ func (ex *Exec) runLoop(st *State, ls loopShape) Outcomes {
 	}
 	for _, g := range ghosts {
 		old := st.ghost[g.Name]
-		st.ghost[g.Name] = freshVal("ghost."+g.Name, old.T)
+		st.ghost[g.Name] = freshLike("ghost."+g.Name, old)
 	}
 	for _, h := range ls.hidden {
 		if old, ok := st.ghost[h]; ok {
-			st.ghost[h] = freshVal("hidden."+sanitize(h), old.T)
+			st.ghost[h] = freshLike("hidden."+sanitize(h), old)
 		}
 	}
 	if ls.atHead != nil {
@@ -1162,12 +1165,12 @@ type ModSet struct {
 	alloc bool
 	// locs: per heap, the variables whose field is stored (x.f = ...); whole: stores
 	// through anything else
-	locs  map[string][]*types.Var
+	locs  map[string][]ast.Expr
 	whole map[string]bool
 }
 
 func newModSet() *ModSet {
-	return &ModSet{vars: map[*types.Var]bool{}, heaps: map[string]Sort{}, locs: map[string][]*types.Var{}, whole: map[string]bool{}}
+	return &ModSet{vars: map[*types.Var]bool{}, heaps: map[string]Sort{}, locs: map[string][]ast.Expr{}, whole: map[string]bool{}}
 }
 
 func (m *ModSet) addAll(o *ModSet) {
@@ -1217,23 +1220,25 @@ func (ex *Exec) havocFor(st *State, m *ModSet, tag string) {
 	for _, h := range m.heapNames() {
 		srt := m.heaps[h]
 		if !m.whole[h] && len(m.locs[h]) > 0 {
-			// stores only through fields of loop-invariant pointer variables: havoc those locations
+			// stores only through loop-invariant base expressions: havoc those locations only
 			ok := true
-			for _, v := range m.locs[h] {
-				if m.vars[v] || ex.boxed[v] {
-					ok = false
-				}
-				if _, has := st.vars[v]; !has {
+			for _, e := range m.locs[h] {
+				if !ex.loopInvariantExpr(e, m) {
 					ok = false
 				}
 			}
 			if ok {
 				cur := st.heapGet(h, srt)
 				_, el := arrParts(srt)
-				for _, v := range m.locs[h] {
+				for _, e := range m.locs[h] {
+					ref, good := ex.evalQuiet(st, e)
+					if !good {
+						ok = false
+						break
+					}
 					fv := Fresh(h+"."+tag, el)
-					cur = Store(cur, st.vars[v].C[0], fv)
-					if info, okI := heapCompInfo[h]; okI {
+					cur = Store(cur, ref, fv)
+					if info, okI := heapCompInfo[h]; okI && !info.nested {
 						switch info.kind {
 						case CRef, CArrID, CMap:
 							st.assume(And(Le(IntLit(0), fv), Lt(fv, st.ctr)))
@@ -1244,10 +1249,14 @@ func (ex *Exec) havocFor(st *State, m *ModSet, tag string) {
 								st.assume(And(Le(lo, fv), Le(fv, hi)))
 							}
 						}
+					} else if okI && info.nested {
+						registerHeapAxiomInner(fv, info, st.ctr)
 					}
 				}
-				st.heap[h] = cur
-				continue
+				if ok {
+					st.heap[h] = cur
+					continue
+				}
 			}
 		}
 		sym := Fresh(h+"."+tag, srt)
@@ -1256,4 +1265,94 @@ func (ex *Exec) havocFor(st *State, m *ModSet, tag string) {
 		st.heap[h] = sym
 	}
 	ex.mutCount++
+}
+
+// freshLike makes an unconstrained value with the same component sorts as v.
+func freshLike(prefix string, v Val) Val {
+	out := Val{T: v.T, C: make([]*Term, len(v.C))}
+	for i, c := range v.C {
+		out.C[i] = Fresh(prefix, c.sort)
+	}
+	return out
+}
+
+// loopInvariantExpr: e is built from variables and heap fields the loop does not modify.
+func (ex *Exec) loopInvariantExpr(e ast.Expr, m *ModSet) bool {
+	switch x := unparen(e).(type) {
+	case *ast.Ident:
+		o, ok := ex.P.Info.Uses[x].(*types.Var)
+		if !ok {
+			return false
+		}
+		if o.Pkg() != nil && o.Parent() == o.Pkg().Scope() {
+			return true
+		}
+		return !m.vars[o] && !ex.boxed[o]
+	case *ast.SelectorExpr:
+		sel, ok := ex.P.Info.Selections[x]
+		if !ok || sel.Kind() != types.FieldVal || len(sel.Index()) != 1 {
+			return false
+		}
+		if !ex.loopInvariantExpr(x.X, m) {
+			return false
+		}
+		t := ex.typeOf(x.X)
+		if p, ok := t.Underlying().(*types.Pointer); ok {
+			f := findField(p.Elem(), x.Sel.Name)
+			if f == nil {
+				return false
+			}
+			for _, c := range flatten(f.Type()) {
+				if _, mod := m.heaps[fieldHeapName(p.Elem(), x.Sel.Name, c)]; mod {
+					return false
+				}
+			}
+		}
+		return true
+	}
+	return false
+}
+
+// evalQuiet evaluates a pure expression without recording obligations or facts.
+func (ex *Exec) evalQuiet(st *State, e ast.Expr) (ref *Term, ok bool) {
+	nObl := len(ex.Obls)
+	cnt := map[string]int{}
+	for k, v := range ex.oblCount {
+		cnt[k] = v
+	}
+	tmp := st.clone()
+	defer func() {
+		ex.Obls = ex.Obls[:nObl]
+		ex.oblCount = cnt
+		if r := recover(); r != nil {
+			if _, isU := r.(undecided); isU {
+				ok = false
+				return
+			}
+			panic(r)
+		}
+	}()
+	v := ex.eval(tmp, e)
+	return v.C[0], true
+}
+
+// registerHeapAxiomInner: type invariant for one inner array (Array K tau) of a nested heap.
+func registerHeapAxiomInner(inner *Term, info heapInfo, ctr *Term) {
+	idx, _ := arrParts(inner.sort)
+	i := BVar("i", idx)
+	sel := Select(inner, i)
+	var body *Term
+	switch info.kind {
+	case CRef, CArrID, CMap:
+		body = And(Lt(sel, ctr), Ge(sel, IntLit(0)))
+	case CSliceI:
+		body = Ge(sel, IntLit(0))
+	case CInt:
+		if lo, hi, ok := intRange(info.t); ok {
+			body = And(Le(lo, sel), Le(sel, hi))
+		}
+	}
+	if body != nil {
+		addAxiomFor(inner.op, Forall([]*Term{i}, body, []*Term{sel}))
+	}
 }
